@@ -4,6 +4,7 @@ import (
 	"fmt"
 
 	dtpb "github.com/google/fhir/go/proto/google/fhir/proto/r4/core/datatypes_go_proto"
+	opb "github.com/google/fhir/go/proto/google/fhir/proto/r4/core/resources/observation_go_proto"
 	ppb "github.com/google/fhir/go/proto/google/fhir/proto/r4/core/resources/patient_go_proto"
 	"github.com/verily-src/fhirpath-go/fhirpath"
 	"github.com/verily-src/fhirpath-go/fhirpath/compopts"
@@ -97,6 +98,7 @@ func runC03(cfg config) {
 			pat.Name = append(pat.Name, &dtpb.HumanName{Family: &dtpb.String{Value: "Roe"}, Given: []*dtpb.String{{Value: "Cy"}, {Value: "Di"}}})
 		}
 		pat.Name[0].Extension = []*dtpb.Extension{mkx("first"), mkx("second")}
+		annElem := &dtpb.String{Value: "Ann"}
 		for pi, src := range progs {
 			e, err := fhirpath.Compile(src, compopts.WithExperimentalFuncs())
 			if err != nil {
@@ -108,7 +110,7 @@ func runC03(cfg config) {
 			// spare capacity, the resource itself, two system values
 			backing := make(system.Collection, 8)
 			backing[0] = system.String("Ann")
-			backing[1] = system.String("Ann")
+			backing[1] = annElem // a FHIR primitive ELEMENT: a conversion to a System value may not be written back
 			backing[2] = pat.Name[0]
 			for i := 3; i < 8; i++ {
 				backing[i] = &sentinel{i}
@@ -131,7 +133,7 @@ func runC03(cfg config) {
 			panicked, _ := protect(func() { out, eerr = verifhook.Evaluate(e, input, opts...) })
 			first := summarize(out, eerr)
 			resSame := detBytes(res) == before && proto.Equal(res, beforeClone)
-			envSame := len(coll) == 3 && coll[2] == any(pat.Name[0]) && coll[0] == system.String("Ann") && coll[1] == system.String("Ann") && len(empty) == 0
+			envSame := len(coll) == 3 && coll[2] == any(pat.Name[0]) && coll[0] == system.String("Ann") && coll[1] == any(annElem) && annElem.Value == "Ann" && len(empty) == 0
 			backingSame := true
 			for i := range backing {
 				if backing[i] != snapshot[i] {
@@ -181,7 +183,7 @@ func runC03(cfg config) {
 				pat2 := res2.(*ppb.Patient)
 				b3 := make(system.Collection, 8)
 				b3[0] = system.String("Ann")
-				b3[1] = system.String("Ann")
+				b3[1] = &dtpb.String{Value: "Ann"}
 				b3[2] = pat2.Name[0]
 				opts2 := []fhirpath.EvaluateOption{evalopts.EnvVariable("coll", b3[:3]), evalopts.EnvVariable("empty", make(system.Collection, 0, 4)), evalopts.EnvVariable("res", res2),
 					evalopts.EnvVariable("str", system.String("s")), evalopts.EnvVariable("num", system.Integer(1))}
@@ -208,6 +210,48 @@ func runC03(cfg config) {
 			sink.add(fmt.Sprintf("%s, {| ob_resources_same := %s; ob_env_same := %s; ob_backing_same := %s; ob_input_slice_same := %s; ob_expression_same := %s; ob_results_are_input_nodes := %s; ob_panicked := %s |}",
 				coqN(uint64(pi)), coqBool(resSame), coqBool(envSame), coqBool(backingSame), coqBool(inputSame), coqBool(exprSame), coqBool(nodesOK), coqBool(panicked)),
 				fmt.Sprintf("resource %d: %s", ri, src), k, fmt.Sprintf("%s:%d", k, pi%400))
+		}
+	}
+	// ---- elements whose stored value is unusual (a time of day outside [0, 24h), a date with a hidden time of day, a
+	// decimal with trailing zeros or an exponent, a zone name): reading and converting them may not normalise them in place
+	{
+		odd := temporalObservation()
+		odd.GetValue().GetTime().ValueUs = -50400000000 // -14h
+		odd.Component[0].GetValue().GetTime().ValueUs = 90000000000 // 25h
+		odd.Component[1].GetValue().GetTime().ValueUs = 86400000000 // 24h
+		odd.GetEffective().GetDateTime().Timezone = "Europe/Paris"
+		odd.Issued.Timezone = "-00:00"
+		odd2 := &opb.Observation{Id: &dtpb.Id{Value: "o2"}, Code: &dtpb.CodeableConcept{Text: fstr("q")},
+			Value: &opb.Observation_ValueX{Choice: &opb.Observation_ValueX_Quantity{Quantity: &dtpb.Quantity{Value: &dtpb.Decimal{Value: "1.500"}, Code: &dtpb.Code{Value: "mg"}, Unit: fstr("milligram")}}},
+			Effective: &opb.Observation_EffectiveX{Choice: &opb.Observation_EffectiveX_DateTime{DateTime: &dtpb.DateTime{ValueUs: 1579268700123456, Timezone: "+05:30", Precision: dtpb.DateTime_MONTH}}},
+			Component: []*opb.Observation_Component{{Code: &dtpb.CodeableConcept{Text: fstr("c")}, Value: &opb.Observation_Component_ValueX{Choice: &opb.Observation_Component_ValueX_Quantity{Quantity: &dtpb.Quantity{Value: &dtpb.Decimal{Value: "1e2"}}}}}}}
+		oddPat := basePatient()
+		oddPat.BirthDate = &dtpb.Date{ValueUs: 1579268700000000, Precision: dtpb.Date_YEAR, Timezone: "America/New_York"}
+		oddProgs := []string{"%s.value", "%s.value < @T23:00:00", "%s.value = @T01:00:00", "%s.value.toString()", "%s.value.toTime()", "%s.value.value", "%s.component.value.where($this > @T00:00:00)", "%s.component.value.toString()",
+			"%s.effective < now()", "%s.effective.toString()", "%s.effective = @2020-01", "%s.issued.toString()", "%s.issued > @2020", "%s.value + 1 hour", "%s.value.value + 1", "%s.value.value.toString()", "%s.value = 1.5 'mg'",
+			"%s.value.toQuantity()", "%s.component.value.value.round(1)", "%s.component.value.value = 100", "%s.descendants().toString()", "%s.descendants().select($this = $this)", "%s.birthDate = @2020", "%s.birthDate.toString()", "%s.birthDate + 1 year"}
+		for ri, res := range []proto.Message{odd, odd2, oddPat} {
+			root := string(res.ProtoReflect().Descriptor().Name())
+			for pi, ps := range oddProgs {
+				src := fmt.Sprintf(ps, root)
+				e, err := fhirpath.Compile(src, compopts.WithExperimentalFuncs())
+				if err != nil {
+					continue
+				}
+				before := detBytes(res)
+				beforeClone := proto.Clone(res)
+				panicked, _ := protect(func() { verifhook.Evaluate(e, []proto.Message{res}) })
+				same := detBytes(res) == before && proto.Equal(res, beforeClone)
+				if !same && len(firstBad) < 25 {
+					firstBad = append(firstBad, fmt.Sprintf("%s on the resource with unusual stored values #%d: the resource changed", src, ri))
+				}
+				if !same { // the next program starts from the original again
+					proto.Reset(res)
+					proto.Merge(res, beforeClone)
+				}
+				sink.add(fmt.Sprintf("%s, {| ob_resources_same := %s; ob_env_same := true; ob_backing_same := true; ob_input_slice_same := true; ob_expression_same := true; ob_results_are_input_nodes := true; ob_panicked := %s |}",
+					coqN(uint64(100000+ri*1000+pi)), coqBool(same), coqBool(panicked)), fmt.Sprintf("unusual stored values, resource %d: %s", ri, src), "odd", fmt.Sprintf("odd:%d:%d", ri, pi))
+			}
 		}
 	}
 	sink.extra["programs"] = len(progs)
